@@ -9,7 +9,13 @@ fake socket (harness/stepnet.py):
 A script is {'t': 'serial'|'muxt', 'ops': [...]}.  An operation that is not applicable in the
 state the real object is in (e.g. `io` with no greenlet blocked in an I/O call) is skipped, so
 every sub-sequence of a script is a script; what was applied is what is sent to the model, and
-the model's `wf` flag cross-checks that it considers the same operations applicable."""
+the model's `wf` flag cross-checks that it considers the same operations applicable.
+
+mux `burst`: the receive loop's pending read and the reads that follow it return without the loop
+yielding (stepnet `release_burst`): a frame — or several — and the end of stream / read error right
+behind it.  The `_ProcessReply` greenlets of those frames, which `_Shutdown` does not kill, then run
+after the `_Shutdown`.  Every response a request's sink stack is ever handed is logged (LogStack), so a
+request completed twice shows as two entries of `dels`."""
 import itertools
 from struct import pack, unpack
 
@@ -20,7 +26,8 @@ COMPONENT = 'serial'
 QUICK = dict(gen=3000)
 THOROUGH = dict(gen=40000)
 TRUSTED = ['step-controlled fake socket harness/stepnet.py standing for ScalesSocket underneath the real '
-           'VarzSocketWrapper (one sendall / recv_into is atomic)',
+           'VarzSocketWrapper (one sendall / recv_into is atomic; a read whose bytes / end of stream / error are '
+           'already buffered returns without yielding, like a socket read that finds data)',
            'logging sink stack (subclass of ClientMessageSinkStack) counting every response it is handed',
            'tags handed out by the tag pool are read from the run and passed to the model (C11 is about them)']
 ASSUMPTIONS = ['gevent is cooperative: between two blocking calls a transport method is atomic',
@@ -29,7 +36,9 @@ ASSUMPTIONS = ['gevent is cooperative: between two blocking calls a transport me
                'a deliberate Close() with a serial transaction in flight kills it without a response: nothing claimed',
                'ping intervals: random.randint(30, 40) is replaced by 30 (virtual seconds)']
 RULE = ('scripts = corpus + seeded random operation lists + exhaustive enumeration of fault position x fault kind x '
-        'requests in flight (serial 0-1, mux 0-3) through the third transaction; distinct = distinct applied op '
+        'requests in flight (serial 0-1, mux 0-3) through the third transaction, for the mux transport also with the '
+        'read fault (error / EOF, in a header / a body) arriving in one burst right behind 1-2 frames (reply of an '
+        'in-flight request, Rping, junk) that are read but not yet dispatched; distinct = distinct applied op '
         'list; non-trivial = a connection failure, a timeout, a concurrency rejection or a deliberate close happened')
 
 
@@ -334,6 +343,40 @@ class MuxT(Base):
             c.release('read', o, data)
             rt.drain()
             return 'rd %s %s' % (o, vfmt(tuple(f) if isinstance(f, list) else f))
+        if kind == 'burst':
+            # ['burst', [[outcome, frame], ...]]: the receive loop's pending read and the reads that follow it
+            # return without a yield in between (bytes, and an end of stream / error right behind them, that
+            # arrived together); the `_ProcessReply` greenlets spawned meanwhile only run in the drain after it.
+            # Reads behind the first fault never happen and are cut off.
+            c = self.conn()
+            if c is None or c.pend['read'] is None or not op[1]:
+                return None
+            at_hdr = c.pend['read'].arg == 4
+            reads, applied, nframes = [], [], 0
+            for o, f in op[1]:
+                applied.append([o, f])
+                if o != 'ok':
+                    reads.append((o, None))
+                    self.tags.add('read-%s-at-%s-with-%d-in-flight' % (o, 'hdr' if at_hdr else 'body',
+                                                                       min(3, len(s._tag_map))))
+                    self.tags.add('burst-%s-at-%s-behind-%d-frames' % (o, 'hdr' if at_hdr else 'body',
+                                                                       min(3, nframes)))
+                    if s.state == ChannelState.Idle:
+                        self.tags.add('fault-during-open')
+                    break
+                if at_hdr:
+                    reads.append(('ok', pack('!i', FRAME_LEN)))
+                else:
+                    reads.append(('ok', _frame(f)))
+                    nframes += 1
+                    kind_ = f if isinstance(f, str) else 'reply' if f[1] in s._tag_map else 'reply-unknown-tag'
+                    self.tags.add('burst-frame-' + kind_)
+                at_hdr = not at_hdr
+            if len(applied) > 1:
+                self.tags.add('burst')
+            c.release_burst(reads)
+            rt.drain()
+            return 'burst %s' % vfmt([[o, tuple(f) if isinstance(f, list) else f] for o, f in applied])
         if kind == 'pingdue':
             if s.state != ChannelState.Open or s._ping_ar is not None or len(s._greenlets) < 3:
                 return None
@@ -410,6 +453,20 @@ def _gen_serial(rng, n):
     return {'t': 'serial', 'ops': ops}
 
 
+def _gen_burst(rng, tags):
+    """1-3 complete frames (and possibly the header of the next one) read without a yield, most of the time
+    with an end of stream / read error right behind them"""
+    reads = []
+    for _ in range(rng.choice([1, 1, 2, 3]) * 2 + rng.choice([0, 0, 0, 1])):
+        f = rng.random()
+        reads.append(['ok', 'rping' if f < 0.2 else 'junk' if f < 0.3 else ['reply', rng.choice(tags + [77])]])
+    if rng.random() < 0.1:
+        reads = reads[1:]                   # start in the middle of a frame or end with its header
+    if rng.random() < 0.7:
+        reads.append([rng.choice(['eof', 'raise']), 'junk'])
+    return ['burst', reads]
+
+
 def _gen_mux(rng, n):
     ops = [['open', 'ok' if rng.random() < 0.93 else 'refuse']]
     p_fault = rng.choice([0.0, 0.03, 0.08, 0.2])
@@ -424,10 +481,12 @@ def _gen_mux(rng, n):
             ops.append(['req'])
         elif x < 0.55:
             ops.append(['wr', 'ok'])
-        elif x < 0.85:
+        elif x < 0.78:
             f = rng.random()
             fr = 'rping' if f < 0.25 else 'junk' if f < 0.3 else ['reply', rng.choice(tags + [1, 77])]
             ops.append(['rd', 'ok', fr])
+        elif x < 0.85:
+            ops.append(_gen_burst(rng, tags))
         elif x < 0.92:
             ops.append(['pingdue'])
         elif x < 0.95:
@@ -489,6 +548,13 @@ def _mux_cases():
             if k[0] == 'rd' and i < 3:
                 # fault in the body read of the first frame
                 yield hs[:i] + [['rd', 'ok', 'junk'], k] + tail
+    # the Rping of the handshake (or another frame) and a read fault right behind it, in one burst
+    for i in (1, 2):
+        for x in ('raise', 'eof'):
+            for fr in ('rping', 'junk', ['reply', 2]):
+                yield hs[:i] + [['burst', [['ok', 'junk'], ['ok', fr], [x, 'junk']]]] + tail
+                yield hs[:i] + [['burst', [['ok', 'junk'], ['ok', fr], ['ok', 'junk'], [x, 'junk']]]] + tail
+            yield hs[:i] + [['rd', 'ok', 'junk'], ['burst', [['ok', 'rping'], [x, 'junk']]]] + tail
     fault_kinds = [
         [['wr', 'raise']],
         [['rd', 'raise', 'junk']], [['rd', 'eof', 'junk']],
@@ -497,6 +563,24 @@ def _mux_cases():
         [['pingdue'], ['wr', 'ok'], ['wr', 'ok'], ['wr', 'ok'], ['wr', 'ok'], ['pingsilence']],
         [['pingdue'], ['wr', 'raise']],
         [['close']],
+    ]
+    # a read fault right behind frames that were read but not yet dispatched (one burst, no yield)
+    for x in ('raise', 'eof'):
+        fault_kinds += [
+            [['burst', [['ok', 'junk'], ['ok', ['reply', 2]], [x, 'junk']]]],
+            [['burst', [['ok', 'junk'], ['ok', ['reply', 2]], ['ok', 'junk'], [x, 'junk']]]],
+            [['burst', [['ok', 'junk'], ['ok', ['reply', 3]], ['ok', 'junk'], ['ok', ['reply', 2]], [x, 'junk']]]],
+            [['rd', 'ok', 'junk'], ['burst', [['ok', ['reply', 2]], [x, 'junk']]]],
+            [['burst', [['ok', 'junk'], ['ok', 'junk'], [x, 'junk']]]],
+            [['pingdue'], ['burst', [['ok', 'junk'], ['ok', 'rping'], [x, 'junk']]]],
+            [['pingdue'], ['burst', [['ok', 'junk'], ['ok', 'rping'], ['ok', 'junk'], ['ok', ['reply', 2]],
+                                     [x, 'junk']]]],
+        ]
+    # several frames in one burst, no fault
+    fault_kinds += [
+        [['burst', [['ok', 'junk'], ['ok', ['reply', 3]], ['ok', 'junk'], ['ok', ['reply', 2]]]], ['rd', 'eof', 'junk']],
+        [['burst', [['ok', 'junk'], ['ok', ['reply', 2]], ['ok', 'junk'], ['ok', ['reply', 2]], ['ok', 'junk']]],
+         ['rd', 'raise', 'junk']],
     ]
     for done in range(4):
         pre = list(hs)
@@ -532,10 +616,15 @@ def shrink(script):
     ops = script['ops']
     for i in range(len(ops) - 1, -1, -1):
         yield {'t': script['t'], 'ops': ops[:i] + ops[i + 1:]}
+    for i in range(len(ops) - 1, -1, -1):
+        if ops[i][0] == 'burst' and len(ops[i][1]) > 1:
+            reads = ops[i][1]
+            for j in range(len(reads) - 1, -1, -1):
+                yield {'t': script['t'], 'ops': ops[:i] + [['burst', reads[:j] + reads[j + 1:]]] + ops[i + 1:]}
 
 
 def nontrivial(case):
     t = set(case.get('tags', []))
     return any(x.startswith(('io-', 'timeout-', 'connect-', 'deadline-past', 'concurrent', 'close', 'write-raise',
-                             'read-', 'ping-silence', 'fault-during-open', 'request-while-not-open'))
+                             'read-', 'burst-', 'ping-silence', 'fault-during-open', 'request-while-not-open'))
                for x in t)
